@@ -62,6 +62,13 @@ fn classify<F: Float>(c: &Case, pr: &Prep<F>, obs: &mut Obs) -> (bool, bool) {
     obs.class_if(pr.n == 1, "n_eq_1");
     obs.class_if(c.n_runs >= 2, "n_runs_ge_2");
     obs.class_if(c.max_iter == 300, "budget_300");
+    obs.class_if(pr.recs.nonstandard() && pr.recs.layout == Layout::ColMajor, "records_column_major");
+    obs.class_if(pr.recs.nonstandard() && pr.recs.layout == Layout::Strided, "records_strided_view");
+    if let Init::Precomputed(c0) = &c.init {
+        let nonstd = c0.len() >= 2 && pr.p >= 2;
+        obs.class_if(nonstd && c.c0_layout == Layout::ColMajor, "precomputed_column_major");
+        obs.class_if(nonstd && c.c0_layout == Layout::Strided, "precomputed_transposed_owned");
+    }
     let d = distinct_rows(&pr.x64);
     let dup = d < pr.n;
     let few = d < c.k;
@@ -92,7 +99,7 @@ pub fn check_assign(c: &Case, obs: &mut Obs) {
     dispatch!(c.data.f32_, c.metric, assign_impl, c, obs)
 }
 
-fn assign_impl<F: Float, D: Distance<F>>(c: &Case, obs: &mut Obs, dist: D) {
+fn assign_impl<F: Float + std::fmt::Debug, D: Distance<F> + std::fmt::Debug + 'static>(c: &Case, obs: &mut Obs, dist: D) {
     let pr = prep::<F>(&c.data);
     if pr.n == 0 || pr.p == 0 || c.k == 0 || c.k > pr.n {
         obs.skip("degenerate_case");
@@ -103,13 +110,46 @@ fn assign_impl<F: Float, D: Distance<F>>(c: &Case, obs: &mut Obs, dist: D) {
     obs.class_if(hull.len() > pr.n, "precomputed_outside_data_box");
     let tol = c.tol.value(c.data.f32_);
     let rng = Xoshiro256Plus::seed_from_u64(c.seed);
-    let Some(f) = fit(obs, &pr, c.k, rng, dist, &c.init, c.max_iter, tol, c.n_runs) else { return };
+    let Some(f) = fit(obs, &pr, c.k, rng, dist.clone(), &c.init, c.c0_layout, c.max_iter, tol, c.n_runs) else { return };
     if !check_structure(obs, &pr, c.k, &hull, &f) {
         return;
     }
-    let s_train = check_assignment(obs, &pr, c.metric, &f, &pr.xf, "training");
+    // layout twin: the same logical problem with every matrix stored row-major goes through the
+    // same arithmetic, so the fitted model must be identical
+    let c0_nonstd = matches!(&c.init, Init::Precomputed(_)) && c.c0_layout != Layout::RowMajor;
+    if pr.recs.layout != Layout::RowMajor || c0_nonstd {
+        let twin_recs = Laid::build(&pr.xf, pr.p, Layout::RowMajor);
+        let rng = Xoshiro256Plus::seed_from_u64(c.seed);
+        if let Some(t) = fit_on(obs, &pr, &twin_recs, c.k, rng, dist.clone(), &c.init, Layout::RowMajor, c.max_iter, tol, c.n_runs) {
+            obs.class("row_major_twin_compared");
+            obs.ensure(
+                bits_equal(&t.cent, &f.cent) && t.counts == f.counts && t.inertia == f.inertia,
+                "layout:model-differs-from-row-major-twin",
+                || {
+                    format!(
+                        "records {:?}, precomputed centroids {:?}: centroids {:?} counts {:?} inertia {:e}; the same problem with row-major storage gives centroids {:?} counts {:?} inertia {:e}",
+                        pr.recs.layout, c.c0_layout, f.cent64, f.counts, f.inertia, t.cent64, t.counts, t.inertia
+                    )
+                },
+            );
+        }
+    }
+    // a model whose centroid matrix keeps the caller's memory layout (one fit_with step)
+    if matches!(&c.init, Init::Precomputed(_)) {
+        let rng = Xoshiro256Plus::seed_from_u64(c.seed);
+        if let Some(g) = fit_with_once(obs, &pr, c.k, rng, dist.clone(), &c.init, c.c0_layout, tol) {
+            let finite = g.cent64.iter().flatten().all(|v| v.is_finite()) && g.model.centroids().dim() == (c.k, pr.p);
+            if obs.ensure(finite, "centroids:not-finite", || format!("fit_with model: centroids {:?}", g.cent64)) {
+                obs.class_if(!g.model.centroids().is_standard_layout(), "model_centroids_not_row_major");
+                let fresh: Vec<Vec<F>> = conv_rows(&c.queries, &pr.xf_);
+                check_assignment(obs, &pr, c.metric, &g, &pr.xf, pr.recs.layout, "fit_with model, training");
+                check_assignment(obs, &pr, c.metric, &g, &fresh, c.query_layout, "fit_with model, fresh");
+            }
+        }
+    }
+    let s_train = check_assignment(obs, &pr, c.metric, &f, &pr.xf, pr.recs.layout, "training");
     let fresh: Vec<Vec<F>> = conv_rows(&c.queries, &pr.xf_);
-    let s_fresh = check_assignment(obs, &pr, c.metric, &f, &fresh, "fresh");
+    let s_fresh = check_assignment(obs, &pr, c.metric, &f, &fresh, c.query_layout, "fresh");
     // adversarial queries derived from the fitted model: every centroid and every midpoint of two
     let mut adv: Vec<Vec<F>> = f.cent.clone();
     let two = F::cast(2.0);
@@ -118,7 +158,7 @@ fn assign_impl<F: Float, D: Distance<F>>(c: &Case, obs: &mut Obs, dist: D) {
             adv.push((0..pr.p).map(|j| (f.cent[a][j] + f.cent[b][j]) / two).collect());
         }
     }
-    let s_adv = check_assignment(obs, &pr, c.metric, &f, &adv, "centroid/midpoint");
+    let s_adv = check_assignment(obs, &pr, c.metric, &f, &adv, c.query_layout, "centroid/midpoint");
     let ties = s_train.exact_ties + s_fresh.exact_ties + s_adv.exact_ties;
     let near = s_train.near_ties + s_fresh.near_ties + s_adv.near_ties;
     obs.class_if(ties > 0, "exact_tie_query");
@@ -172,7 +212,7 @@ fn trajectory_impl<F: Float, D: Distance<F>>(c: &Case, obs: &mut Obs, dist: D) {
 
     for m in 1..=c.max_iter + 1 {
         let rng = Xoshiro256Plus::seed_from_u64(c.seed);
-        let Some(f) = fit(obs, &pr, c.k, rng, dist.clone(), &c.init, m, tol, 1) else { return };
+        let Some(f) = fit(obs, &pr, c.k, rng, dist.clone(), &c.init, c.c0_layout, m, tol, 1) else { return };
         if !check_structure(obs, &pr, c.k, &hull, &f) {
             return;
         }
@@ -339,7 +379,7 @@ fn restarts_impl<F: Float, D: Distance<F>>(c: &Case, obs: &mut Obs, dist: D) {
     for j in 1..=r {
         let rng = CountRng::new(c.seed, 0);
         let handle = rng.clone();
-        let Some(f) = fit(obs, &pr, c.k, rng, dist.clone(), &c.init, budget, tol, j) else { return };
+        let Some(f) = fit(obs, &pr, c.k, rng, dist.clone(), &c.init, c.c0_layout, budget, tol, j) else { return };
         if !check_structure(obs, &pr, c.k, &hull, &f) {
             return;
         }
@@ -357,14 +397,14 @@ fn restarts_impl<F: Float, D: Distance<F>>(c: &Case, obs: &mut Obs, dist: D) {
     for i in 1..=r {
         let rng = CountRng::new(c.seed, pos[i - 1]);
         let handle = rng.clone();
-        let Some(f) = fit(obs, &pr, c.k, rng, dist.clone(), &c.init, budget, tol, 1) else { return };
+        let Some(f) = fit(obs, &pr, c.k, rng, dist.clone(), &c.init, c.c0_layout, budget, tol, 1) else { return };
         if handle.count() != pos[i].wrapping_sub(pos[i - 1]) {
             // the initialiser did not consume the stream as a prefix: runs cannot be re-created
             obs.skip("rng_stream_not_prefix_stable");
             return;
         }
         let rng = CountRng::new(c.seed, pos[i - 1]);
-        let Some(g) = fit(obs, &pr, c.k, rng, dist.clone(), &c.init, budget - 1, tol, 1) else { return };
+        let Some(g) = fit(obs, &pr, c.k, rng, dist.clone(), &c.init, c.c0_layout, budget - 1, tol, 1) else { return };
         if !check_structure(obs, &pr, c.k, &hull, &f) {
             return;
         }
@@ -461,7 +501,7 @@ fn large_impl<F: Float, D: Distance<F>>(c: &LargeCase, obs: &mut Obs, dist: D) {
         obs.skip("degenerate_case");
         return;
     }
-    let data = Data { kind: DataKind::Blobs, f32_: c.f32_, scale_exp: 0, offset: vec![], rows: large_rows(c) };
+    let data = Data { kind: DataKind::Blobs, f32_: c.f32_, scale_exp: 0, offset: vec![], layout: Layout::RowMajor, rows: large_rows(c) };
     let pr = prep::<F>(&data);
     let init = match c.init_kind {
         0 => Init::Random,
@@ -476,14 +516,14 @@ fn large_impl<F: Float, D: Distance<F>>(c: &LargeCase, obs: &mut Obs, dist: D) {
     obs.class(if c.f32_ { "f32" } else { "f64" });
     let tol = 1e-4;
     let rng = Xoshiro256Plus::seed_from_u64(c.seed);
-    let Some(f) = fit(obs, &pr, c.k, rng, dist.clone(), &init, 300, tol, c.n_runs) else { return };
+    let Some(f) = fit(obs, &pr, c.k, rng, dist.clone(), &init, Layout::RowMajor, 300, tol, c.n_runs) else { return };
     if !check_structure(obs, &pr, c.k, &pr.x64, &f) {
         return;
     }
-    let st = check_assignment(obs, &pr, c.metric, &f, &pr.xf, "training");
+    let st = check_assignment(obs, &pr, c.metric, &f, &pr.xf, pr.recs.layout, "training");
     if init != Init::Para && c.n_runs == 1 {
         let rng = Xoshiro256Plus::seed_from_u64(c.seed);
-        let Some(g) = fit(obs, &pr, c.k, rng, dist, &init, 301, tol, 1) else { return };
+        let Some(g) = fit(obs, &pr, c.k, rng, dist, &init, Layout::RowMajor, 301, tol, 1) else { return };
         if bits_equal(&f.cent, &g.cent) {
             obs.class("converged_run_statistics_judged");
             let tau_f = F::cast(tol).to_f64().unwrap_or(f64::NAN);
